@@ -104,6 +104,9 @@ def run_case(case, ctx):
                 check_value(ctx, "value-perm", vp, ref, 1.0, "row order", Sp, Tp)
     vl, _ = call_warn(ctx, persim.wasserstein, [list(p) for p in S], [list(p) for p in T])
     check_value(ctx, "value-container", vl, ref, 1.0, "nested lists", S, T)
+    if S and T:
+        vr, _ = call_warn(ctx, persim.wasserstein, [np.array(p, dtype=float) for p in S], tuple(np.array(p, dtype=float) for p in T))
+        check_value(ctx, "value-container", vr, ref, 1.0, "list / tuple of row arrays", S, T)
     vi, _ = call_warn(ctx, persim.wasserstein, iarr(S), iarr(T))
     check_value(ctx, "value-container", vi, ref, 1.0, "int arrays", S, T)
     # mixed representations: integer array against a fractional float array (and the other way round)
@@ -121,7 +124,9 @@ def run_case(case, ctx):
         vq, _ = call_warn(ctx, persim.wasserstein, a1, a2)
         check_value(ctx, "value-mixed-dtype", vq, rq, 1e3, what, X_, Y_)
     # integer-typed arrays with large values / narrow or unsigned dtypes
-    for dt, kk in ((np.int64, 4 * 10 ** 9), (np.int32, 50000), (np.uint8, 60)):
+    for dt, kk in ((np.int64, 4 * 10 ** 9), (np.int32, 50000), (np.uint8, 60), (np.uint8, 85), (np.int16, 10900), (np.int8, 42)):
+        if max([x for p_ in S + T for x in p_] or [0]) * kk > np.iinfo(dt).max:
+            continue
         Si = (np.array(S, dtype=np.int64).reshape(-1, 2) * kk).astype(dt)
         Ti = (np.array(T, dtype=np.int64).reshape(-1, 2) * kk).astype(dt)
         ri, _ = om.wasserstein_ref(Si.astype(float).tolist(), Ti.astype(float).tolist())
